@@ -43,6 +43,7 @@ type gbCase struct {
 	Pair       string  `json:"pair"` // inproc, process
 	TLS        string  `json:"tls"`  // "", "auto" (process pairs)
 	Launch     string  `json:"launch"`
+	Translate  string  `json:"translate,omitempty"` // "tcpforward": a custom runner whose address translation changes network and address
 	Sequential bool    `json:"sequential"`
 	Ests       []gbEst `json:"ests"`
 	Hold       *gbHold `json:"hold,omitempty"`
@@ -121,7 +122,7 @@ func runGBCase(c gbCase, bin, tmp string, t *testing.T) map[string]interface{} {
 	} else {
 		pc := &vp.PluginCfg{LegacyVersion: 1, Legacy: &vp.SetCfg{Proto: "grpc", Tag: "1"}, GRPCServer: true}
 		hc := &vp.HostCfg{LegacyVersion: 1, Legacy: &vp.SetCfg{Proto: "grpc", Tag: "1"}, Allowed: []string{"grpc"}, Mux: c.Mux, TLS: c.TLS,
-			Launch: c.Launch, TempDir: tmp}
+			Launch: c.Launch, TempDir: tmp, Forward: c.Translate == "tcpforward"}
 		p := vp.NewPair(bin, hc, pc, []string{"TMPDIR=" + tmp}, nil)
 		s, proto, err := p.Dispense()
 		if err != nil {
@@ -369,11 +370,20 @@ func runGBCase(c gbCase, bin, tmp string, t *testing.T) map[string]interface{} {
 	order := true
 	for _, e := range c.Ests {
 		id := int64(e.ID)
-		reg := firstIdx("smux.listener", id)
-		if reg < 0 {
-			reg = firstIdx("cmux.listener", id)
+		// the acceptor of this establishment: the plugin (its server muxer registers the listener) when the
+		// host dials, the host (client muxer) when the plugin dials -- a number may be in use both ways
+		regEv, accObj := "smux.listener", "P"
+		if e.Dir == "p2h" {
+			regEv, accObj = "cmux.listener", "H"
 		}
-		ack := firstIdx("grpc.lfk.took", id)
+		reg := firstIdx(regEv, id)
+		ack := -1
+		for i, ev := range evs {
+			if ev.Ev == "grpc.lfk.took" && ev.A == id && ev.Obj == accObj {
+				ack = i
+				break
+			}
+		}
 		if ack >= 0 && (reg < 0 || reg > ack) {
 			order = false
 		}
